@@ -82,7 +82,7 @@ def main():
     pb = props_by_pkg()
     patches = []
     for a in dirs or [os.path.join(V, 'benign')]:
-        patches += sorted(glob.glob(a + '/*/patch.diff'))
+        patches += sorted(glob.glob(os.path.abspath(a) + '/*/patch.diff'))
     w = int(os.environ.get('BENIGN_WORKERS', '6'))
     alarms, ran, rows = 0, 0, {}
     with ThreadPoolExecutor(w) as ex:
